@@ -35,7 +35,7 @@ def leaf():
 def tag(children):
     return st.builds(
         lambda n, ws, a, k: {"k": "tag", "name": n, "ws": ws, "attrs": a, "kids": k},
-        st.sampled_from(["div", "span", "p", "b", "ul", "li", "script", "style", "head", "br"]),
+        st.sampled_from(["div", "span", "p", "b", "ul", "li", "script", "style", "head", "br"] + gen.SPECIAL_NAMES + gen.RAWISH_NAMES),
         st.booleans(),
         st.lists(st.tuples(st.sampled_from(["id", "class_"]), gen.safe_text(1, 3)).map(list), max_size=1),
         st.lists(children, max_size=4),
